@@ -408,6 +408,8 @@ inductive ErrKind where
   | truncated
   /-- `ErrDNSResponseQuestionMismatch` (fix b94e062) -/
   | mismatch
+  /-- `ResponseSelect`: "DNS response expected but DNS request received" (QR bit clear) -/
+  | notResponse
   deriving DecidableEq, Repr
 
 /-- what `HandleWithResponseWriter_` did for one client -/
@@ -508,6 +510,7 @@ def dialSend (cfg : Cfg) (c : Client) (sch : Scheme) (a1 a2 : Att) (cache : List
   | .err e => (.err e, cache)
   | .ok m =>
     if cfg.checkQuestion && !answersRequest c.q m then (.err .mismatch, cache)
+    else if !m.resp then (.err .notResponse, cache)
     else
       let m' := { m with id := c.id }
       -- NormalizeAndCacheDnsResp_: only healthy responses with a question are cached, under the
